@@ -39,3 +39,4 @@ def run(ctx):
     # which recogniser decides for a class is part of "the most-derived match": a class without a recogniser of its own must not be
     # judged by the one it inherits
     S.r10_hooks(ctx, ids=('R03.12', 'R03.13', 'R03.14'), only_hooks={'_yatiml_recognize'})
+    R3.r03_15_tag_class_direction(ctx, 'R03.15')
